@@ -113,7 +113,7 @@ CHECKS.update({
         category="proof", engine="kani-woven",
         text="From<u16> for ChronyClockStatus proved for all 65 536 codes; the status result of extract_bound_from_tracking proved for all leap codes, every non-negative update interval with wire "
              "exponent in [-10,30] (one loop-free harness per exponent, 41 instances), every reference-time age below 2^40 s on both sides of 8 intervals (exact integer oracle), and a "
-             "reference time in the future.",
+             "reference time in the future. A bounded native stand-in on the real SystemTime clock (not counted as proved) supplies the executable failing input when one of these harnesses fails.",
         note="Kani/CBMC sound; SystemTime::elapsed and f64::powi stubbed by their contracts (listed); interval window stated.",
         technique="Kani full-domain harnesses (per wire exponent) on the real function with an exact integer oracle",
         design_ref="DESIGN.md section 4, C10"),
@@ -121,8 +121,10 @@ CHECKS.update({
         category="proof", engine="kani-woven",
         text="ClockErrorBound::now is proved (Kani, ghost clock) to read CLOCK_REALTIME first and the monotonic clock second, exactly two reads, and to hand tick #1 as `real` and tick #2 as `mono` "
              "to compute_bound_at, whose result it passes through; a failing clock read is an error, not an interval. One iteration of the real run_clock_error_bound_poller is proved to take its "
-             "as-of reading from the monotonic clock with exactly one read strictly before chronyd is queried, and to put that reading into the report. 'Delay only enlarges' then follows from the "
-             "Verus lemma that the half-width is monotone in the monotonic reading (C05.lemma.monotone).",
+             "as-of from a monotonic-clock reading of that iteration taken before the query whose reply the report forwards (every clock read and every query of the iteration is logged by the ghost "
+             "environment; a retry inside an iteration is allowed as long as each forwarded reply is stamped with a reading older than its own request), and to send no report when the clock cannot be read. "
+             "'Delay only enlarges' then follows from the Verus lemma that the half-width is monotone in the monotonic reading (C05.lemma.monotone). A bounded native stand-in (the real loop on the real "
+             "clock against a scripted chronyd; not counted as proved) supplies the executable failing scenario.",
         note="Ghost clock instead of clock_gettime; mpsc/DispatchBox recorders (assumed delivery); one loop iteration; compute_bound_at recorded, not re-verified here.",
         technique="Kani harnesses with a ghost clock on the real now() and the real poller loop body + Verus monotonicity lemma",
         design_ref="DESIGN.md section 4, C12"),
@@ -131,7 +133,9 @@ CHECKS.update({
         text="Proved by Kani on the real poller code: is_within_grace_period() <=> last good answer younger than 5 s (ghost monotone clock, real Instant arithmetic); default() starts outside the grace "
              "period for any later delay; get_tracking stamps 'now' iff a Tracking reply arrives and leaves the stamp on silence or a wrong reply; one loop iteration selects exactly one message per poll: "
              "silence -> NotResponding(GracePeriod iff within); report with PHC configured and matching reference id -> PHC file read exactly once after the report, its value attached exactly, read "
-             "failure -> PhcErrorBoundRetrievalFailed(GracePeriod iff within) and no data message; report otherwise -> data with PHC term 0, forwarded unchanged.",
+             "failure -> PhcErrorBoundRetrievalFailed(GracePeriod iff within) and no data message; report otherwise -> data with PHC term 0, forwarded unchanged; the grace period is judged after the query / "
+             "the PHC read returned; two consecutive iterations: the second poll's message depends on the second poll only. A bounded native stand-in (real loop, real clock, real channels, real PHC file, "
+             "scripted chronyd; not counted as proved) supplies the executable failing scenario.",
         note="Instant manufactured from its linux representation (assumed valid); network/file I/O replaced by contracts; mpsc/DispatchBox recorders; one iteration (loop state = the poller's stamp only).",
         technique="Kani full-domain harnesses with ghost clock / I/O contract stubs on the real poller",
         design_ref="DESIGN.md section 4, C13"),
